@@ -12,6 +12,13 @@ task, no start after a result was stored, exactly one execution per task in comp
 repeated executes."""
 from . import exectrace as X
 
+# hypotheses of this property's theorems that are other properties of the list: their ties are re-run (reduced) by
+# harness/main.py after this module's run(); a failure there is reported as a violation of this property
+HYPOTHESES = {
+    'C04': (0.5, 'the lock primitive of every backend is exclusive and its failed marker sticky'),
+    'C06': (0.4, 'can_load / load tell the truth about what was dumped (a stored result is never reported missing)'),
+}
+
 EVIDENCE = dict(
     level='proof',
     rule='one case = (program, initial store, schedule) -> one recorded multi-worker run of the real execution_loop; '
